@@ -452,6 +452,11 @@ def run_case(case, ctx):
         elif side < 0.3:
             ctxt = [asvar(z) for z in ctxt]
             ctx.count("count:from_list:variables-vs-raw-ids")
+        elif side < 0.42:
+            # variables on both sides, the listed ones written without (or with other) bounds than the declared columns: a variable stands for its id
+            ctxt = [puan.variable(z, bounds=rng.choice([(0, 5), (-2, 3), (0, 1)])) for z in ctxt]
+            lst = [[puan.variable(z) for z in l] for l in lst] if isinstance(lst[0], list) else [puan.variable(z) for z in lst]
+            ctx.count("count:from_list:variables-on-both-sides")
         if kind == "ifrom":
             ctx.call("integer.from_list", pnd.integer_ndarray.from_list, lst, list(ctxt))
         else:
